@@ -51,7 +51,13 @@ Definition sitem_okb (s : svstate) (it : sitem) : bool :=
   | VConnect sid => negb (bool_decide (SvConnect sid ∈ v_trace s))
   | VConnEnd sid => bool_decide (SvConnect sid ∈ v_trace s) && negb (bool_decide (SvConnEnd sid ∈ v_trace s))
   | VSignal => negb (bool_decide (SvSignal ∈ v_trace s))
-  | VCancel _ cause => bool_decide (cause = ESrvLockWaitTimeout) || bool_decide (cause = ECtxCanceled)
+  | VCancel tid cause =>
+      bool_decide (cause = ECtxCanceled) ||
+      (bool_decide (cause = ESrvLockWaitTimeout) &&
+       match v_thr s !! tid with
+       | Some t => bool_decide (st_pc t = VMgrLock) || bool_decide (st_pc t = VWait) || bool_decide (st_pc t = VWoken)
+       | None => false
+       end)
   | VTick _ | VRun _ => true
   end.
 Lemma acq_ok s sid k lt :
@@ -73,7 +79,11 @@ Proof.
     + apply acq_ok.
     + apply presentedb_sound.
     + intros [H ?]%andb_prop. split; [by apply presentedb_sound|lia].
-  - intros H. apply orb_prop in H as [H|H]; apply bool_decide_eq_true in H; auto.
+  - (* VCancel: the wait timeout only while the Lock call is inside lockMgr.Lock (sitem_ok, corrected by svinv) *)
+    intros H. apply orb_prop in H as [H|H]; [left; by apply bool_decide_eq_true in H|right].
+    apply andb_prop in H as [H1 H2]. apply bool_decide_eq_true in H1. split; [done|].
+    destruct (v_thr s !! _) as [t|]; [|done]. exists t. split; [done|].
+    apply orb_prop in H2 as [H2|H2]; [apply orb_prop in H2 as [H2|H2]|]; apply bool_decide_eq_true in H2; auto.
   - intros H. by apply negb_true_iff, bool_decide_eq_false in H.
   - intros [H1 H2]%andb_prop. split; [by apply bool_decide_eq_true in H1|by apply negb_true_iff, bool_decide_eq_false in H2].
   - intros H. by apply negb_true_iff, bool_decide_eq_false in H.
